@@ -1,0 +1,7 @@
+//go:build !verif
+
+package protocol
+
+// verifHook is the no-op stand-in for the verification instrumentation
+// (see verif_on.go, build tag `verif`).
+func verifHook(point string, t *Tunnel, args ...interface{}) {}
